@@ -151,7 +151,7 @@ Definition member_declared (ft : features) (tf : tflags) (e : entry) : bool :=
   | KIsSet => true
   | KReadField | KWriteField => tf_serdes tf
   | KFieldDeepEqual => true
-  | KBuiltin => (beqb (e_name e) s_String) ||
+  | KBuiltin => (beqb (e_name e) s_String) || (beqb (e_name e) s_InitDefault) ||
                 ((beqb (e_name e) s_Read || beqb (e_name e) s_Write) && tf_serdes tf) ||
                 beqb (e_name e) s_Error || beqb (e_name e) s_DeepEqual ||
                 (beqb (e_name e) s_Carrying && negb (tf_slim tf))
@@ -159,7 +159,7 @@ Definition member_declared (ft : features) (tf : tflags) (e : entry) : bool :=
   end.
 (* NOT MODELLED members: written by templates under fixed names *)
 Definition fixed_members : list bytes :=
-  [sB "InitDefault"; sB "GetTypeDescriptor"; sB "GetDescriptor"; sB "Get_FieldMask"; sB "Set_FieldMask"; sB "Pass_FieldMask";
+  [sB "GetTypeDescriptor"; sB "GetDescriptor"; sB "Get_FieldMask"; sB "Set_FieldMask"; sB "Pass_FieldMask";
    sB "BLength"; sB "FastAppend"; sB "FastRead"; sB "FastWrite"; sB "FastWriteNocopy"].
 Definition not_modelled_member (tn : bytes) (model : list bytes) (n : bytes) : bool :=
   negb (memb n model) &&
